@@ -62,6 +62,22 @@ def main():
     except core.Infra as exc:
         print(f"INFRASTRUCTURE ERROR: {exc}", file=sys.stderr)
         return 2
+    except Exception as exc:  # noqa: BLE001
+        # the harness itself fell over on the current tree (a changed return type, a missing attribute, ...): the
+        # correspondence can no longer be evaluated - that is a broken obligation, reported like one, with the traceback
+        import traceback
+        tb = traceback.format_exc()
+        path = os.path.join(core.VERIF, "replays", f"{pid}_harness-exception.json")
+        try:
+            os.makedirs(os.path.dirname(path), exist_ok=True)
+            json.dump({"property": pid, "no_longer_checks": [f"correspondence: the harness raised {type(exc).__name__} while driving "
+                       "the implementation (its cases can no longer be evaluated on the current tree)"], "traceback": tb.splitlines()},
+                      open(path, "w"), indent=1)
+        except Exception:  # noqa: BLE001
+            pass
+        print(tb, file=sys.stderr)
+        print(f"VIOLATION property={pid} replay={path} no-failing-input-found", flush=True)
+        return 1
 
 
 if __name__ == "__main__":
